@@ -67,6 +67,8 @@ def go_build(hdir, race=False):
     cmd = ["go", "test", "-c", "-vet=off", "-tags", "verif", "-overlay", overlay_file(), "-o", out]
     if race:
         cmd.append("-race")
+    if os.environ.get("VERIF_COVER"):      # diagnostic only (lib/coverage.py): statement coverage of /repo under a check's harness runs
+        cmd += ["-cover"]
     cmd.append("./" + PKGS[hdir])
     r = subprocess.run(cmd, cwd=REPO, env=GOENV, capture_output=True, text=True, timeout=900)
     if r.returncode != 0 or not os.path.exists(out):
@@ -91,6 +93,9 @@ def run_harness(binary, mode, inp, timeout=600, env_extra=None, cwd=None, flags=
     cmd = (prefix or []) + [binary]
     if flags:
         cmd += ["-test.run", "^TestVerif$", "-test.count=1", "-test.timeout", "%ds" % (timeout + 30)]
+        if os.environ.get("VERIF_COVER"):
+            os.makedirs(os.environ["VERIF_COVER"], exist_ok=True)
+            cmd += ["-test.coverprofile", os.path.join(os.environ["VERIF_COVER"], "%s-%d-%d.out" % (mode, os.getpid(), _seq[0]))]
     try:
         r = subprocess.run(cmd, env=env, cwd=cwd or w, capture_output=True, text=True, timeout=timeout + 60)
     except subprocess.TimeoutExpired:
